@@ -4,6 +4,8 @@ pub mod c04_l2;
 pub mod c05;
 pub mod c06;
 pub mod c06_l2;
+pub mod c07;
+pub mod c07_l2;
 
 use crate::engine::Run;
 
@@ -13,6 +15,7 @@ pub fn dispatch(run: &mut Run) -> bool {
     "C04" => c04::run(run),
     "C05" => c05::run(run),
     "C06" => c06::run(run),
+    "C07" => c07::run(run),
     _ => return false,
   }
   true
